@@ -189,6 +189,63 @@ func (t *T) senText(sb *strings.Builder, single bool) {
 	}
 }
 
+// senTight renders the tree with the token shapes only SEN has: plain-word strings bare, no white
+// space inside an array where a bracket or brace already delimits the tokens (a bare word or a
+// number directly followed by `[` or `{`, `]` or `}` directly followed by a word), and a `//` or
+// `/* */` comment as the separator of some neighbours. Members of an object stay separated by a
+// blank (a key must follow a value there).
+func (t *T) senTight(sb *strings.Builder) {
+	closed := func(b byte) bool { return b == ']' || b == '}' }
+	opens := func(b byte) bool { return b == '[' || b == '{' }
+	switch t.K {
+	case 'a':
+		sb.WriteByte('[')
+		for i, k := range t.Kids {
+			var one strings.Builder
+			k.senTight(&one)
+			txt := one.String()
+			if i > 0 {
+				cur := sb.String()
+				if !(closed(cur[len(cur)-1]) || opens(txt[0])) {
+					switch i % 3 {
+					case 0:
+						sb.WriteString("// c\n")
+					case 2:
+						sb.WriteString("/* c */")
+					default:
+						sb.WriteByte(' ')
+					}
+				}
+			}
+			sb.WriteString(txt)
+		}
+		sb.WriteByte(']')
+	case 'o':
+		sb.WriteByte('{')
+		for i, k := range t.Kids {
+			if i > 0 {
+				sb.WriteByte(' ')
+			}
+			if plainWord(t.Keys[i]) {
+				sb.WriteString(t.Keys[i])
+			} else {
+				senString(sb, t.Keys[i], i%2 == 0)
+			}
+			sb.WriteByte(':')
+			k.senTight(sb)
+		}
+		sb.WriteByte('}')
+	case 's':
+		if plainWord(t.S) {
+			sb.WriteString(t.S)
+		} else {
+			senString(sb, t.S, len(t.S)%2 == 0)
+		}
+	default:
+		t.writeJSON(sb, nil)
+	}
+}
+
 func plainWord(s string) bool {
 	if s == "" || s == "null" || s == "true" || s == "false" {
 		return false
